@@ -37,19 +37,20 @@ var listAttrs = map[string]struct {
 	attr   string
 	render bool
 }{
-	"target.DeclaredDependencies()": {".deps", true},
-	"target.Visibility":             {".visibility", true},
-	"target.Hashes":                 {".hashes", false},
-	"target.AllSources()":           {".sources", true},
-	"target.DeclaredOutputs()":      {".outs", false},
-	"target.Licences":               {".licences", false},
-	"target.OptionalOutputs":        {".optionalOuts", false},
-	"target.Labels":                 {".labels", false},
-	"target.Secrets":                {".secrets", false},
-	"target.Requires":               {".requires", false},
-	"target.OutputDirectories":      {".outputDirs", false},
-	"target.AllData()":              {".data", true},
-	"target.Test.Outputs":           {".testOutputs", false},
+	"target.DeclaredDependencies()":   {".deps", true},
+	"target.Visibility":               {".visibility", true},
+	"target.Hashes":                   {".hashes", false},
+	"target.AllSources()":             {".sources", true},
+	"state.Config.Build.HashCheckers": {".hashCheckers", false},
+	"target.DeclaredOutputs()":        {".outs", false},
+	"target.Licences":                 {".licences", false},
+	"target.OptionalOutputs":          {".optionalOuts", false},
+	"target.Labels":                   {".labels", false},
+	"target.Secrets":                  {".secrets", false},
+	"target.Requires":                 {".requires", false},
+	"target.OutputDirectories":        {".outputDirs", false},
+	"target.AllData()":                {".data", true},
+	"target.Test.Outputs":             {".testOutputs", false},
 }
 
 var boolAttrs = map[string]string{
@@ -68,6 +69,7 @@ var boolAttrs = map[string]string{
 	"target.PreBuildFunction != nil":     ".preBuild",
 	"target.PostBuildFunction != nil":    ".postBuild",
 	"target.Test.Sandbox":                ".testSandbox",
+	"target.Test.NoOutput":               ".testNoOutput",
 }
 
 var mapAttrs = map[string]string{
@@ -426,6 +428,10 @@ func (x *ex) ifStmt(is *ast.IfStmt) {
 		x.guard = ".runtimeTest"
 		x.block(is.Body.List)
 		x.guard = ".runtime"
+	case cond == "len(target.Hashes) > 0" && x.guard == ".always":
+		x.guard = ".hasHashes"
+		x.block(is.Body.List)
+		x.guard = ".always"
 	case cond == "target.PassEnv != nil":
 		// for _, env := range *target.PassEnv { write env; write {'='}; write os.Getenv(env) }
 		if len(is.Body.List) != 1 {
